@@ -955,6 +955,507 @@ example : ((run {} (freeze (fun i => decide (i < 33)) (manyBlocked 33))).inst 33
 
 end Conn
 
+/-! ### a type received through a bounded channel (`Model/C05Chan.lean`)  -/
+namespace Chan
+
+/-- the message the reader is carrying to the channel, if any -/
+def carrying (s : St) : List Nat := match s.pc with | .sending m => [m] | _ => []
+/-- the message whose handler is running, if any -/
+def cur (s : St) : List Nat := match s.pc with | .handling m => [m] | _ => []
+
+theorem cmsgs_append (a b : List (Bool × Nat)) : cmsgs (a ++ b) = cmsgs a ++ cmsgs b := by simp [cmsgs]
+theorem hmsgs_append (a b : List (Bool × Nat)) : hmsgs (a ++ b) = hmsgs a ++ hmsgs b := by simp [hmsgs]
+theorem fated_append (f : Fate) (a b : List (Nat × Fate)) : fated f (a ++ b) = fated f a ++ fated f b := by simp [fated]
+
+structure Inv (s : St) : Prop where
+  order : s.accepted = s.popped ++ s.queue
+  hstart : s.started = hmsgs s.popped
+  serial : s.started = s.finished ++ cur s
+  clog : (s.log.map (·.1)) ++ carrying s = cmsgs s.popped
+  chan : s.taken ++ s.chan = put s
+
+theorem inv_init (c : Nat) : Inv { cap := c } := by
+  constructor <;> simp [cur, carrying, cmsgs, hmsgs, put, fated]
+
+theorem inv_step (s s' : St) (a : Act) (h : Inv s) (hs : step s a = some s') : Inv s' := by
+  obtain ⟨ho, hh, hse, hc, hch⟩ := h
+  cases a with
+  | accept c m =>
+    simp only [step] at hs
+    split at hs <;> simp at hs <;> subst hs
+    · exact ⟨ho, hh, hse, hc, hch⟩
+    · constructor <;> simp_all [cur, carrying, put]
+  | close => simp [step] at hs; subst hs; constructor <;> simp_all [cur, carrying, put]
+  | take =>
+    simp only [step] at hs
+    split at hs <;> simp at hs
+    subst hs; constructor <;> simp_all [cur, carrying, put]
+  | reader =>
+    simp only [step] at hs
+    split at hs
+    · split at hs
+      · simp at hs; subst hs; constructor <;> simp_all [cur, carrying, put]
+      · split at hs <;> simp at hs <;> subst hs <;> constructor <;>
+          simp_all [cur, carrying, put, cmsgs, hmsgs]
+    · simp at hs; subst hs; constructor <;> simp_all [cur, carrying, put]
+    · split at hs
+      · split at hs
+        · simp at hs; subst hs; constructor <;> simp_all [cur, carrying, put, fated]
+        · simp at hs; subst hs
+          refine ⟨ho, hh, ?_, ?_, ?_⟩
+          · simp_all [cur]
+          · simp_all [carrying]
+          · simp only [put, fated_append]
+            have : fated Fate.put [(‹Nat›, Fate.put)] = [‹Nat›] := by simp [fated]
+            rw [this, ← List.append_assoc]; simp only [put] at hch; rw [hch]
+      · simp at hs; subst hs; constructor <;> simp_all [cur, carrying, put, fated]
+    · split at hs <;> simp at hs; subst hs; constructor <;> simp_all [cur, carrying, put]
+    · simp at hs
+
+theorem inv_run (as : List Act) (s : St) (h : Inv s) : Inv (run s as) := by
+  induction as generalizing s with
+  | nil => exact h
+  | cons a as ih =>
+    simp only [run]
+    split
+    · exact ih _ (inv_step _ _ _ h ‹_›)
+    · exact ih _ h
+
+theorem fated_sublist (f : Fate) (l : List (Nat × Fate)) : (fated f l).Sublist (l.map (·.1)) :=
+  (List.filter_sublist).map _
+
+/-- **order through a channel**: under every schedule, what the protocol has read from its channel followed
+by what still sits in the channel is exactly the sequence of messages the reader put there, and that is a
+subsequence of the channel-type messages in the order in which the instance accepted them — a message may
+be missing (the channel was full, or the instance was closing), but no message ever overtakes one that was
+accepted before it, and none shows up twice or out of nowhere. -/
+theorem c05_chan_order (c : Nat) (as : List Act) :
+    let s := run { cap := c } as
+    s.taken ++ s.chan = put s ∧ (put s).Sublist (cmsgs s.accepted) := by
+  intro s
+  have h : Inv s := inv_run as _ (inv_init c)
+  refine ⟨h.chan, ?_⟩
+  have h1 : (put s).Sublist (s.log.map (·.1)) := fated_sublist _ _
+  have h2 : (s.log.map (·.1)).Sublist (cmsgs s.popped) := by
+    rw [← h.clog]; exact List.sublist_append_left _ _
+  have h3 : (cmsgs s.popped).Sublist (cmsgs s.accepted) := by
+    rw [h.order, cmsgs_append]; exact List.sublist_append_left _ _
+  exact (h1.trans h2).trans h3
+
+/-- **handlers of such an instance**: the handler-type messages are still handled one at a time and in
+acceptance order, whatever happens to the channel-type messages in between. -/
+theorem c05_chan_handlers_in_order (c : Nat) (as : List Act) :
+    let s := run { cap := c } as
+    s.started <+: hmsgs s.accepted ∧ ∃ running, s.started = s.finished ++ running ∧ running.length ≤ 1 := by
+  intro s
+  have h : Inv s := inv_run as _ (inv_init c)
+  refine ⟨?_, cur s, h.serial, ?_⟩
+  · rw [h.hstart, h.order, hmsgs_append]; exact List.prefix_append _ _
+  · unfold cur; split <;> simp
+
+/-- two entries of a log without repeated messages that speak about the same message are the same entry -/
+theorem fate_unique (l : List (Nat × Fate)) (hn : (l.map (·.1)).Nodup) (m : Nat) (f g : Fate)
+    (hf : (m, f) ∈ l) (hg : (m, g) ∈ l) : f = g := by
+  induction l with
+  | nil => simp at hf
+  | cons x l ih =>
+    simp only [List.map_cons, List.nodup_cons] at hn
+    simp only [List.mem_cons] at hf hg
+    rcases hf with hf | hf <;> rcases hg with hg | hg
+    · rw [← hf] at hg; simpa using hg.symm
+    · exfalso; apply hn.1; subst hf; exact List.mem_map.mpr ⟨_, hg, rfl⟩
+    · exfalso; apply hn.1; subst hg; exact List.mem_map.mpr ⟨_, hf, rfl⟩
+    · exact ih hn.2 hf hg
+
+theorem mem_fated (f : Fate) (l : List (Nat × Fate)) (m : Nat) : m ∈ fated f l ↔ (m, f) ∈ l := by
+  simp only [fated, List.mem_map, List.mem_filter]
+  constructor
+  · rintro ⟨⟨a, g⟩, ⟨hm, hg⟩, rfl⟩
+    have : g = f := by simpa using hg
+    subst this; exact hm
+  · intro h; exact ⟨(m, f), ⟨h, by simp⟩, rfl⟩
+
+/-- **a rejected message is gone**: when the messages are distinguishable (no repeated number among the
+channel-type messages accepted), a message that found the channel full is never delivered afterwards: under
+every continuation of the schedule it has not been read by the protocol, does not sit in the channel, is not
+carried by the reader and is not back in the queue. -/
+theorem c05_chan_rejected_gone (c : Nat) (as : List Act) (m : Nat) :
+    let s := run { cap := c } as
+    (cmsgs s.accepted).Nodup → m ∈ rejected s →
+      m ∉ s.taken ∧ m ∉ s.chan ∧ m ∉ carrying s ∧ (true, m) ∉ s.queue := by
+  intro s hn hm
+  have h : Inv s := inv_run as _ (inv_init c)
+  have hacc : cmsgs s.accepted = (s.log.map (·.1) ++ carrying s) ++ cmsgs s.queue := by
+    rw [h.order, cmsgs_append, h.clog]
+  rw [hacc] at hn
+  have hfull : (m, Fate.full) ∈ s.log := (mem_fated _ _ _).mp hm
+  have hlog : m ∈ s.log.map (·.1) := List.mem_map.mpr ⟨_, hfull, rfl⟩
+  have hn1 := List.nodup_append.mp hn
+  have hn2 := List.nodup_append.mp hn1.1
+  have hput : m ∉ put s := by
+    intro hp
+    have := fate_unique s.log hn2.1 m _ _ ((mem_fated _ _ _).mp hp) hfull
+    exact absurd this (by decide)
+  have hput' : m ∉ s.taken ++ s.chan := by rw [h.chan]; exact hput
+  refine ⟨fun x => hput' (List.mem_append_left _ x), fun x => hput' (List.mem_append_right _ x), ?_, ?_⟩
+  · intro x; exact hn2.2.2 m hlog m x rfl
+  · intro x
+    have : m ∈ cmsgs s.queue := by
+      simp only [cmsgs, List.mem_map, List.mem_filter]; exact ⟨(true, m), ⟨x, rfl⟩, rfl⟩
+    exact hn1.2.2 m (List.mem_append_left _ hlog) m this rfl
+
+/-- **with free capacity nothing is lost**: as long as no message found the channel full and the instance
+is not closed, what the protocol read, what sits in the channel, what the reader carries and the channel-type
+messages still queued are, in this order, exactly the channel-type messages in acceptance order. -/
+theorem c05_chan_lossless_with_capacity (c : Nat) (as : List Act) :
+    let s := run { cap := c } as
+    rejected s = [] → s.closing = false →
+      s.taken ++ s.chan ++ carrying s ++ cmsgs s.queue = cmsgs s.accepted := by
+  intro s hr hc
+  have h : Inv s := inv_run as _ (inv_init c)
+  -- the reader never saw `closing` while carrying: no entry is `late`
+  have hlate : ∀ (as : List Act) (s0 : St), (s0.closing = false → fated .late s0.log = []) →
+      ((run s0 as).closing = false → fated .late (run s0 as).log = []) := by
+    intro as
+    induction as with
+    | nil => intro s0 h0; exact h0
+    | cons a as ih =>
+      intro s0 h0
+      simp only [run]
+      split
+      · rename_i s1 hs
+        refine ih s1 ?_
+        intro hc1
+        cases a with
+        | accept c m =>
+          simp only [step] at hs
+          split at hs <;> simp at hs <;> subst hs
+          · exact h0 hc1
+          · exact h0 (by simpa using hc1)
+        | close => simp [step] at hs; subst hs; simp at hc1
+        | take =>
+          simp only [step] at hs
+          split at hs <;> simp at hs
+          subst hs; exact h0 hc1
+        | reader =>
+          simp only [step] at hs
+          split at hs
+          · split at hs
+            · simp at hs; subst hs; exact h0 hc1
+            · split at hs <;> simp at hs <;> subst hs <;> exact h0 hc1
+          · simp at hs; subst hs; exact h0 hc1
+          · split at hs
+            · split at hs
+              · rename_i hcl; simp at hs; subst hs; simp at hc1; simp [hcl] at hc1
+              · simp at hs; subst hs
+                simp only [fated_append]; simp at hc1
+                rw [h0 hc1]; simp [fated]
+            · simp at hs; subst hs
+              simp only [fated_append]; simp at hc1
+              rw [h0 hc1]; simp [fated]
+          · split at hs <;> simp at hs; subst hs; exact h0 hc1
+          · simp at hs
+      · exact ih s0 h0
+  have hl : fated .late s.log = [] := hlate as { cap := c } (by simp [fated]) hc
+  have hall : put s = s.log.map (·.1) := by
+    have : ∀ (l : List (Nat × Fate)), fated .full l = [] → fated .late l = [] → fated .put l = l.map (·.1) := by
+      intro l
+      induction l with
+      | nil => intro _ _; rfl
+      | cons x l ih =>
+        obtain ⟨m, f⟩ := x
+        intro h1 h2
+        cases f
+        · have e1 : fated .full ((m, Fate.put) :: l) = fated .full l := by simp [fated]
+          have e2 : fated .late ((m, Fate.put) :: l) = fated .late l := by simp [fated]
+          rw [e1] at h1; rw [e2] at h2
+          have := ih h1 h2
+          simp [fated] at this ⊢; exact this
+        · simp [fated] at h1
+        · simp [fated] at h2
+    exact this s.log hr hl
+  rw [h.chan, hall, h.clog, h.order, cmsgs_append]
+
+/-- **a full channel never holds the reader**: the reader's step on a channel message is enabled whether
+the channel has room or not (a full channel is an error return, not a wait) — so a protocol that is late
+reading its channel delays nobody, not even its own instance's handlers. -/
+theorem c05_chan_full_never_blocks_reader (s : St) (m : Nat) (hp : s.pc = .sending m) :
+    ∃ s', step s .reader = some s' ∧ s'.pc = .top ∧ s'.queue = s.queue := by
+  simp only [step, hp]
+  split
+  · split <;> exact ⟨_, rfl, rfl, rfl⟩
+  · exact ⟨_, rfl, rfl, rfl⟩
+
+/-- the documented overflow: with the channel full the message is recorded as rejected and the channel,
+the queue and everything the protocol has read stay as they are -/
+theorem c05_chan_full_rejects (s s' : St) (m : Nat) (hp : s.pc = .sending m) (hfull : s.cap ≤ s.chan.length)
+    (hs : step s .reader = some s') :
+    rejected s' = rejected s ++ [m] ∧ s'.chan = s.chan ∧ s'.queue = s.queue ∧ s'.taken = s.taken ∧ put s' = put s := by
+  simp only [step, hp] at hs
+  have : ¬ s.chan.length < s.cap := by omega
+  simp [this] at hs; subst hs
+  simp [rejected, put, fated]
+
+/-- non-vacuity (the schedule of the seeded change C05r5-A: channel of one place; 0 fills it, 1 finds it
+full, the protocol reads 0, 2 finds room): the protocol reads 0 and 2, message 1 is rejected and gone -/
+example :
+    let s := run { cap := 1 } [.accept true 0, .reader, .reader, .accept true 1, .reader, .reader, .take,
+      .accept true 2, .reader, .reader, .take, .reader, .reader, .reader]
+    s.taken = [0, 2] ∧ rejected s = [1] ∧ s.chan = [] ∧ s.queue = [] ∧ s.pc = .waiting ∧
+      (cmsgs s.accepted).Nodup := by decide
+/-- … and with handler messages in between: the handler of 10 runs while 0 and 1 wait in the queue behind it -/
+example :
+    let s := run { cap := 1 } [.accept false 10, .reader, .accept true 0, .accept true 1, .reader, .reader,
+      .reader, .reader, .reader, .reader]
+    s.finished = [10] ∧ s.chan = [0] ∧ rejected s = [1] ∧ s.taken = [] := by decide
+
+end Chan
+
+/-! ### who starts the reader, and registering an instance twice (`Model/C05Reg.lean`) -/
+namespace Reg
+
+theorem step_pcs_length (s s' : St) (a : Act) (hs : step s a = some s') : s'.pcs.length = s.pcs.length := by
+  cases a with
+  | accept m =>
+    simp only [step, Option.map_eq_some_iff] at hs
+    obtain ⟨t, _, rfl⟩ := hs; rfl
+  | close =>
+    simp only [step, Option.map_eq_some_iff] at hs
+    obtain ⟨t, _, rfl⟩ := hs; rfl
+  | register =>
+    simp only [step, register] at hs
+    split at hs
+    · simp at hs; subst hs; rfl
+    · split at hs <;> simp at hs <;> subst hs <;> rfl
+  | reader k =>
+    simp only [step] at hs
+    split at hs
+    · simp at hs
+    · split at hs
+      · simp at hs
+      · simp at hs; subst hs; simp
+
+/-- **exactly one reader**: the constructor starts one reader goroutine and nothing else ever starts another —
+under every schedule of hand-overs, reader steps, `close` and any number of registrations there is one. -/
+theorem c05_reg_one_reader (as : List Act) : (run {} as).pcs.length = 1 := by
+  have : ∀ (as : List Act) (s : St), (run s as).pcs.length = s.pcs.length := by
+    intro as
+    induction as with
+    | nil => intro s; rfl
+    | cons a as ih =>
+      intro s
+      simp only [run]
+      split
+      · rename_i s1 hs; rw [ih s1]; exact step_pcs_length _ _ _ hs
+      · exact ih s
+  rw [this]; rfl
+
+theorem step_bound (s s' : St) (a : Act) (hs : step s a = some s') (hb : s.bound = true) : s'.bound = true := by
+  cases a with
+  | accept m =>
+    simp only [step, Option.map_eq_some_iff] at hs
+    obtain ⟨t, _, rfl⟩ := hs; exact hb
+  | close =>
+    simp only [step, Option.map_eq_some_iff] at hs
+    obtain ⟨t, _, rfl⟩ := hs; exact hb
+  | register =>
+    simp only [step, register, hb] at hs
+    split at hs <;> simp at hs <;> subst hs <;> exact hb
+  | reader k =>
+    simp only [step] at hs
+    split at hs
+    · simp at hs
+    · split at hs
+      · simp at hs
+      · simp at hs; subst hs; exact hb
+
+theorem run_bound (as : List Act) (s : St) (hb : s.bound = true) : (run s as).bound = true := by
+  induction as generalizing s with
+  | nil => exact hb
+  | cons a as ih =>
+    simp only [run]
+    split
+    · exact ih _ (step_bound _ _ _ ‹_› hb)
+    · exact ih _ hb
+
+theorem step_bound_or_closing (s s' : St) (a : Act) (hs : step s a = some s')
+    (hb : s.bound = true ∨ s.core.closing = true) : s'.bound = true ∨ s'.core.closing = true := by
+  rcases hb with hb | hc
+  · exact Or.inl (step_bound _ _ _ hs hb)
+  · right
+    cases a with
+    | accept m =>
+      simp only [step, Option.map_eq_some_iff] at hs
+      obtain ⟨t, ht, rfl⟩ := hs
+      simp [C05.step, hc] at ht; subst ht; exact hc
+    | close =>
+      simp only [step, Option.map_eq_some_iff] at hs
+      obtain ⟨t, ht, rfl⟩ := hs
+      simp [C05.step] at ht; subst ht; rfl
+    | register =>
+      simp only [step, register, hc] at hs
+      simp at hs; subst hs; exact hc
+    | reader k =>
+      simp only [step] at hs
+      split at hs
+      · simp at hs
+      · split at hs
+        · simp at hs
+        · rename_i pc _ t ht
+          simp at hs; subst hs
+          simp only [C05.step] at ht
+          split at ht
+          · split at ht
+            · simp at ht; subst ht; exact hc
+            · simp [hc] at *
+          · simp at ht; subst ht; exact hc
+          · split at ht <;> simp at ht; subst ht; exact hc
+          · simp at ht
+
+/-- **a second registration changes nothing**: once the node's instance has been registered, every later
+registration — whatever happened in between: hand-overs, handlers, `close` — is refused (`ErrProtocolRegistered`,
+or `ErrWrongTreeNodeInstance` once the node is closed) and leaves the whole state as it is: queue, wake-up
+token, ghosts, and in particular the reader goroutines. -/
+theorem c05_reg_second_registration_changes_nothing (as bs : List Act) :
+    let s := run {} (as ++ [.register] ++ bs)
+    (register s).1 = s ∧ (register s).2 ≠ .ok := by
+  intro s
+  have hrun : ∀ (xs ys : List Act) (t : St), run t (xs ++ ys) = run (run t xs) ys := by
+    intro xs
+    induction xs with
+    | nil => intro ys t; rfl
+    | cons x xs ih =>
+      intro ys t
+      simp only [List.cons_append, run]
+      split <;> exact ih _ _
+  have hboc : ∀ (xs : List Act) (t : St), (t.bound = true ∨ t.core.closing = true) →
+      ((run t xs).bound = true ∨ (run t xs).core.closing = true) := by
+    intro xs
+    induction xs with
+    | nil => intro t h; exact h
+    | cons x xs ih =>
+      intro t h
+      simp only [run]
+      split
+      · exact ih _ (step_bound_or_closing _ _ _ ‹_› h)
+      · exact ih _ h
+  have h1 : s = run (run (run {} as) [.register]) bs := by
+    show run {} (as ++ [.register] ++ bs) = _
+    rw [hrun, hrun]
+  have h2 : (run (run {} as) [.register]).bound = true ∨ (run (run {} as) [.register]).core.closing = true := by
+    simp only [run, step, register]
+    split
+    · right; assumption
+    · split
+      · left; assumption
+      · left; rfl
+  have h3 := hboc bs _ h2
+  rw [← h1] at h3
+  simp only [register]
+  split
+  · exact ⟨rfl, by simp⟩
+  · rcases h3 with hb | hc
+    · simp [hb]
+    · rename_i hn; exact absurd hc hn
+
+theorem step_accept_pc (c : C05.St) (p : RPc) (m : Nat) :
+    C05.step { c with pc := p } (.accept m) = (C05.step c (.accept m)).map fun t => { t with pc := p } := by
+  simp only [C05.step]; split <;> rfl
+theorem step_close_pc (c : C05.St) (p : RPc) :
+    C05.step { c with pc := p } .close = (C05.step c .close).map fun t => { t with pc := p } := by
+  simp [C05.step]
+
+/-- **registrations are invisible to the instance**: with its one reader, the instance under a schedule that
+contains any number of registrations (and steps of reader goroutines that do not exist) is the instance of
+`Model/C05Inst.lean` under the schedule without them — so `c05_fifo`, `c05_serial`, `c05_no_lost_wakeup`,
+`c05_quiescent_all_handled` hold whatever is registered when and how often. -/
+theorem c05_reg_registrations_are_stutters (as : List Act) :
+    view (run {} as) = runT {} (erase as) := by
+  have : ∀ (as : List Act) (s : St) (p : RPc), s.pcs = [p] → view (run s as) = runT (view s) (erase as) := by
+    intro as
+    induction as with
+    | nil => intro s p _; rfl
+    | cons a as ih =>
+      intro s p hp
+      have hv : view s = { s.core with pc := p } := by simp [view, hp]
+      cases a with
+      | accept m =>
+        simp only [run, erase, runT, step, hv, step_accept_pc]
+        cases hc : C05.step s.core (.accept m) with
+        | none => simp [C05.step] at hc; split at hc <;> simp at hc
+        | some t =>
+          simp only [Option.map_some]
+          rw [ih _ p (by simpa using hp)]; simp [view, hp]
+      | close =>
+        simp only [run, erase, runT, step, hv, step_close_pc]
+        cases hc : C05.step s.core .close with
+        | none => simp [C05.step] at hc
+        | some t =>
+          simp only [Option.map_some]
+          rw [ih _ p (by simpa using hp)]; simp [view, hp]
+      | register =>
+        simp only [run, erase, step]
+        have hp' : (register s).1.pcs = [p] := by
+          simp only [register]; split
+          · exact hp
+          · split <;> exact hp
+        rw [ih _ p hp']
+        congr 1
+        simp only [view, register]; split
+        · rfl
+        · split <;> rfl
+      | reader k =>
+        cases k with
+        | zero =>
+          simp only [run, erase, runT, step, hp, hv]
+          simp only [List.getElem?_cons_zero]
+          cases hc : C05.step { s.core with pc := p } .reader with
+          | none => simp only; rw [ih s p hp, hv]
+          | some t =>
+            simp only
+            rw [ih _ t.pc (by simp)]; simp [view]
+        | succ k =>
+          simp only [run, erase, step, hp]
+          simp only [List.getElem?_cons_succ, List.getElem?_nil]
+          exact ih s p hp
+  exact this as {} .top rfl
+
+/-- what `c05_reg_registrations_are_stutters` is for: order and mutual exclusion with registrations in
+the schedule -/
+theorem c05_reg_order_and_exclusion (as : List Act) :
+    let s := run {} as
+    s.core.started <+: s.core.accepted ∧
+    (∃ running, s.core.started = s.core.finished ++ running ∧ running.length ≤ 1) ∧
+    (inHandler s).length ≤ 1 := by
+  intro s
+  have hv := c05_reg_registrations_are_stutters as
+  have hr := run_eq_runT (erase as) {}
+  rw [← hv] at hr
+  have h1 := c05_fifo _ _ hr
+  have h2 := c05_serial _ _ hr
+  refine ⟨h1, h2, ?_⟩
+  have hl := c05_reg_one_reader as
+  show (inHandler (run {} as)).length ≤ 1
+  unfold inHandler
+  exact Nat.le_trans (List.length_filterMap_le _ _) (Nat.le_of_eq hl)
+
+/-- **why it matters (negation witness for a node with two readers)**: in the state a second `bind` that
+started a reader would produce — two reader goroutines on one queue — two hand-overs are enough for two
+handlers of the instance to run at the same time. -/
+theorem c05_reg_two_readers_overlap :
+    ∃ as, inHandler (run { pcs := [.top, .top] } as) = [1, 2] :=
+  ⟨[.accept 1, .accept 2, .reader 0, .reader 1], by decide⟩
+
+/-- non-vacuity: a handler is blocked, the instance is registered again twice, two more messages arrive, the
+handler returns: refused both times, one reader, handlers 1 2 3 in order -/
+example :
+    let s := run {} [.register, .accept 1, .reader 0, .register, .accept 2, .register, .accept 3, .reader 1,
+      .reader 0, .reader 0, .reader 0, .reader 0]
+    s.core.started = [1, 2, 3] ∧ s.core.finished = [1, 2] ∧ inHandler s = [3] ∧ s.pcs.length = 1 ∧
+      (register s).2 = .registered := by decide
+
+end Reg
+
 /-! ### the code regions the model stands for
 Regenerated from /repo's source on every run (`harness/cmd/astfacts` → `OnetVerif/Shapes.lean`): the
 calls that matter for synchronisation and data flow, the lock regions and (for decision logic) the
